@@ -21,6 +21,12 @@ theorem observed_invocations : observedInvocations = [recommendInv (Arg.int 0), 
     invocation takes them, and its own extra inputs -/
 theorem observed_calls_are_model : observedCalls = workerCalls true observedInvocations := by decide
 
+/-- a key that carries fields beyond the user is still that user's request: the same calls, with the user as the query -/
+theorem observed_calls_composite_key : observedCallsCompositeKey = workerCalls true observedInvocations := by decide
+
+/-- a key without a user passes no query -/
+theorem observed_calls_no_user : observedCallsNoUser = workerCalls false observedInvocations := by decide
+
 theorem observed_outputs : observedOutputs = observedInvocations.map (·.output) := by decide
 
 /-- `batch.recommend(pipe, users, n)` hands `n` to the runner as given — `None`, 0 and 3 alike -/
